@@ -123,7 +123,7 @@ def gen_cases(tier, seed):
         cases.append({"id": "reload-%d" % k, "sig": ["reload", k], "kind": "reload", "k": k})
     for k in range(12 if tier == "quick" else 600):
         cases.append({"id": "mixed-%d" % k, "sig": ["mixed", k], "kind": "mixed", "k": k})
-    for variant in ("valid", "valid-whole-document-reference", "tampered", "wrong-cert", "unsigned-with-cert", "signed-no-cert", "wrapped-root", "wrapped-root-signature-moved", "wrapped-root-genuine-in-extensions"):
+    for variant in ("valid", "valid-whole-document-reference", "tampered", "wrong-cert", "unsigned-with-cert", "signed-no-cert", "wrapped-root", "wrapped-root-signature-moved", "wrapped-root-genuine-in-extensions") + WRAP_MORE:
         for wrapped in (0, 1):
             cases.append({"id": "signed-%s-%s" % (variant, "entities" if wrapped else "entity"), "sig": ["signed", variant, wrapped], "kind": "signed",
                           "variant": variant, "wrapped": wrapped})
@@ -451,7 +451,7 @@ def run_signed(case, ctx, viol, counters, sigs):
         evil = xk.Doc(doc.replace("https://e0.example.org/sso", "https://attacker.example.net/sso").replace('ID="md-doc-1"', 'ID="md-doc-evil"'))
         ext = '<md:Extensions xmlns:md="%s">%s</md:Extensions>' % (mdgen.MD, genuine.decode("utf-8"))
         text = evil.prepend_child(evil.root, d.outer(sig).decode("utf-8") + ext).text()
-    if variant in ("wrapped-root-signature-moved", "wrapped-root-genuine-in-extensions"):
+    if variant in ("wrapped-root-signature-moved", "wrapped-root-genuine-in-extensions") + WRAP_MORE:
         # an outsider's root element around the genuine, validly signed document; the only Signature the tool will look at is the genuine one
         d = xk.Doc(text)
         sig = d.root.child(xk.DS, "Signature")
@@ -462,10 +462,22 @@ def run_signed(case, ctx, viol, counters, sigs):
             inner = d.remove(sig)
             genuine_wo = inner.standalone(inner.root).decode("utf-8")
             text = '<md:EntitiesDescriptor xmlns:md="%s" ID="md-doc-evil" Name="evil">%s%s%s</md:EntitiesDescriptor>' % (mdgen.MD, sigb, evil_e, genuine_wo)
-        else:
+        elif variant == "wrapped-root-genuine-in-extensions":
             genuine = d.standalone(d.root).decode("utf-8")
             bogus = re.sub(r"(<[^>]*SignatureValue[^>]*>)[^<]*(</)", r"\1AAAA\2", sigb)
             text = '<md:EntitiesDescriptor xmlns:md="%s" ID="md-doc-evil" Name="evil"><md:Extensions>%s</md:Extensions>%s%s</md:EntitiesDescriptor>' % (mdgen.MD, genuine, evil_e, bogus)
+        else:
+            # the outsider's root carries a worthless Signature child of its own whose single Reference is what a genuine root signature would
+            # have (the root's ID, or the whole document); where it stands among the children and whether the root has an ID varies
+            _, ref, order, rootid = variant.split(":")
+            genuine = d.standalone(d.root).decode("utf-8")
+            rid = {"own-id": "md-doc-evil", "no-id": None, "genuine-id": "md-doc-1"}[rootid]
+            uri = {"ref-root": "#%s" % (rid or "md-doc-evil"), "ref-document": "", "ref-genuine": "#md-doc-1"}[ref]
+            bogus = re.sub(r"(<[^>]*SignatureValue[^>]*>)[^<]*(</)", r"\1AAAA\2", sigb)
+            bogus = re.sub(r'URI="#[^"]*"|URI=""', 'URI="%s"' % uri, bogus, count=1)
+            ext = "<md:Extensions>%s</md:Extensions>" % genuine
+            kids = {"extensions-first": ext + bogus + evil_e, "signature-first": bogus + ext + evil_e, "signature-last": ext + evil_e + bogus}[order]
+            text = '<md:EntitiesDescriptor xmlns:md="%s"%s Name="evil">%s</md:EntitiesDescriptor>' % (mdgen.MD, ' ID="%s"' % rid if rid else "", kids)
         ns_local, node_name = (mdgen.MD, "EntitiesDescriptor"), None
     use_cert = fed.key(4)[1] if variant == "wrong-cert" else (None if variant == "signed-no-cert" else cert)
     store = new_store()
@@ -562,6 +574,12 @@ def run_signed(case, ctx, viol, counters, sigs):
     else:
         if not served:
             counters["observation:%s-not-served" % variant] = 1
+
+
+WRAP_MORE = tuple("wrapped-root-own-signature:x:%s:%s:%s" % (ref, order, rootid) for ref in ("ref-root", "ref-document", "ref-genuine")
+                  for order in ("extensions-first", "signature-first", "signature-last") for rootid in ("own-id", "no-id", "genuine-id")
+                  if not (ref == "ref-genuine" and rootid == "genuine-id"))
+WRAP_MORE = tuple(v.replace("wrapped-root-own-signature:x:", "wrapped-root-own-signature:") for v in WRAP_MORE)
 
 
 def run_roundtrip(case, ctx, viol, counters, sigs):
